@@ -66,7 +66,7 @@ func (c *compiler) initRuntimeFunctions() {
 
 	_libc_memcmp_irfun = c.declareExternalRuntimeFunction(
 		"memcmp",
-		ddpbool,
+		i32, // int: only the sign of the result is defined, an i1 would keep nothing but its lowest bit
 		ir.NewParam("buf1", i8ptr),
 		ir.NewParam("buf2", i8ptr),
 		ir.NewParam("size", i64),
